@@ -7,6 +7,11 @@ mod g2;
 #[cfg(test)]
 mod tests;
 
+#[cfg(feature = "verif-hooks")]
+pub use self::g1::verif_tables as verif_iso11_tables;
+#[cfg(feature = "verif-hooks")]
+pub use self::g2::verif_tables as verif_iso3_tables;
+
 use ff::Field;
 use CurveProjective;
 
